@@ -28,9 +28,10 @@ const (
 
 func init() {
 	fw.Register(&fw.Prop{
-		ID:       "C19",
-		Builds:   []string{"default", "386"}, // the 386 build runs a quarter of the random classes on a 32-bit target
-		Parallel: 4,                          // cases are judged on 4 goroutines per shard: the library functions are stateless, shared state inside them shows up as wrong verdicts
+		ID:                  "C19",
+		DeadlockIsViolation: true,                       // the calls of this property are synchronous functions of their inputs: a call blocked for good inside the library is a violation
+		Builds:              []string{"default", "386"}, // the 386 build runs a quarter of the random classes on a 32-bit target
+		Parallel:            4,                          // cases are judged on 4 goroutines per shard: the library functions are stateless, shared state inside them shows up as wrong verdicts
 		Rule: "parse: model-built Bech32 strings carrying every version byte 0..255 x every payload length 0..50 (and no version byte at all) under known prefixes (iota, atoi, smr, rms), unknown ones and upper-case / mixed-case spellings, with zero and non-zero padding; near-valid strings for every prefix x kind with payload length exact, +-1 and the other kind's; mutations of valid address strings (substitution, insertion, deletion, truncation, case flip, whole string upper-cased); parse_unicode: the letters k/i/s replaced by U+212A/U+0130/U+017F/U+0131. " +
 			"ParseBech32 is judged two-sidedly: accept iff model-valid Bech32 whose data regroups into bytes, hrp in the prefix table, payload >= 1 byte and (version, length) in {(0x00,32), (0x08,20), (0x10,20)}; on accept prefix/version/bytes are compared and Bech32(prefix, addr) must be the lower-cased input. " +
 			"roundtrip: every prefix x kind x random/structured hash, string built by the model; fromkey: the three constructors against BLAKE2b. " +
